@@ -1031,7 +1031,7 @@ pub fn main_with(props: Vec<Prop>) -> ! {
         }
     }
     let wall = start.elapsed().as_secs_f64();
-    let exhaustive = prop.subs.iter().all(|s| matches!(s.kind, Kind::Exhaustive(_)));
+    let exhaustive = prop.subs.iter().all(|s| matches!(s.kind, Kind::Exhaustive(_)) && !s.name.starts_with("driver:"));
     let mut coverage = json!({
         "evaluations": total.evaluations,
         "cases": total.cases,
@@ -1138,6 +1138,16 @@ fn replay(prop: &'static Prop, path: &str, known: &Known) -> i32 {
             0
         },
     }
+}
+
+/// Deterministic list of choice vectors drawn from the proptest strategy with the seed derived
+/// from (seed, prop, sub): used by differential drivers that must regenerate the *same* cases in
+/// several builds of one binary.
+pub fn gen_choice_vectors(seed: u64, prop: &str, sub: &str, count: usize, len: usize) -> Vec<Vec<u64>> {
+    let rng = TestRng::from_seed(RngAlgorithm::ChaCha, &derive_seed(seed, prop, sub, 0));
+    let mut runner = TestRunner::new_with_rng(Config { failure_persistence: None, ..Config::default() }, rng);
+    let strategy = proptest::collection::vec(proptest::num::u64::ANY, len..=len);
+    (0..count).map(|_| strategy.new_tree(&mut runner).expect("tree").current()).collect()
 }
 
 /// helper for reading a whole stream
